@@ -8,7 +8,7 @@ current source on every run.
 
 State: `clients[key][action] : []throttleEntry` becomes a total function
 `Key → Action → List Int` (`[]` = map entry absent; the Go code never stores an
-empty slice, see `setEntries`/`cleanup`).
+empty slice, see `pruneEntries`/`cleanup`).
 -/
 import SigModel.Generated.Throttle
 
@@ -112,27 +112,18 @@ def throttle (st : State) (now : Int) (k : Key) (a : Action) : State × Nat :=
 def cleanup (st : State) (now : Int) : State :=
   fun k a => filterEntries now (st k a)
 
-/-- `CheckBruteforce` split at its lock boundary (`getEntries` under the read lock, later `setEntries`
-under the write lock): the write-back uses the list read earlier.  The write happens only if pruning
-removed something — as long as the regenerated fact `writeBackOnlyIfPruned` holds; without the guard the
-stale list would be written back on every passed check. -/
-def writeBack (st : State) (now : Int) (k : Key) (a : Action) (readEarlier : List Int) : State :=
-  if readEarlier = [] ∨ blocked now readEarlier then st
-  else if writeBackOnlyIfPruned && (filterEntries now readEarlier).length == readEarlier.length then st
-  else st.set k a (filterEntries now readEarlier)
-
 /-! ### critical sections (regenerated) and interleavings
 
 `Generated.Throttle.*Paths` list, per control-flow path of a method, the critical sections of the
 throttler's mutex it goes through and the kinds of access to the failure table made inside each.
-The sequential model above treats `throttle` (one `addEntry`) as a single step; the definitions below
-interpret the regenerated sections as a program, so that "every interleaving of concurrent `addEntry`
-calls equals some sequential order" is a theorem about the sections the source really has
+The sequential model above treats `check`, `throttle` and `cleanup` as single steps; the definitions
+below interpret the regenerated sections as programs of concurrent threads, so that "no interleaving of
+concurrent checks and failures loses a record" is a theorem about the sections the source really has
 (`Props/C17.lean`, section 6). -/
 
 inductive Acc where
   | read      -- local copy := the shared entry list
-  | write     -- shared entry list := local copy ++ [own entry]
+  | write     -- shared entry list := what the thread computes from its local copy
   | other     -- an access kind the model does not know (makes the fact theorems fail)
   deriving DecidableEq, Repr
 
@@ -154,25 +145,55 @@ def wellLocked (paths : List (List (String × List String))) : Bool :=
 /-- The programs a thread inside `addEntry` may follow (one per control-flow path). -/
 def addEntryProgs : List Prog := addEntryPaths.map progOf
 
-/-- One thread that records the failure `entry`. -/
+/-- The programs a thread inside `CheckBruteforce` may follow.  If some function that touches the table
+is handed an entry list from outside (`tableAccessorsWithListParam`), what later sections write is that
+list — read in the *first* section — and their own reads do not refresh it. -/
+def checkProgs : List Prog :=
+  checkBruteforcePaths.map fun path =>
+    if tableAccessorsWithListParam.isEmpty then progOf path
+    else match progOf path with
+      | [] => []
+      | first :: later => first :: later.map fun sec => sec.filter (· ≠ .read)
+
+/-- What a thread is doing: recording the failure `entry` (`addEntry`), or pruning at time `now`
+(the write of `CheckBruteforce`). -/
+inductive Job where
+  | record (entry : Int)
+  | prune (now : Int)
+  deriving DecidableEq, Repr
+
+def Job.isRecord : Job → Bool
+  | .record _ => true
+  | .prune _ => false
+
 structure Thr where
-  entry : Int
+  job : Job
   todo : Prog
   loc : List Int := []
   deriving Repr, DecidableEq
 
+/-- `shared` = `clients[key][action]`; `log` is a ghost variable: every entry ever appended, in order
+(what the never-forgetting spec would remember). -/
 structure Conc where
-  shared : List Int          -- clients[key][action]
+  shared : List Int
+  log : List Int := []
   thr : List Thr
   deriving Repr, DecidableEq
 
-def runAcc (entry : Int) : List Int × List Int → Acc → List Int × List Int
-  | (sh, _), .read => (sh, sh)
-  | (_, loc), .write => (loc ++ [entry], loc)
-  | s, .other => s
+structure Mem where
+  shared : List Int
+  log : List Int
+  loc : List Int
 
-def runSection (entry : Int) (sh loc : List Int) (sec : List Acc) : List Int × List Int :=
-  sec.foldl (runAcc entry) (sh, loc)
+def runAcc (job : Job) (m : Mem) : Acc → Mem
+  | .read => { m with loc := m.shared }
+  | .write =>
+    match job with
+    | .record e => { m with shared := m.loc ++ [e], log := m.log ++ [e] }
+    | .prune now => { m with shared := filterEntries now m.loc }
+  | .other => m
+
+def runSection (job : Job) (m : Mem) (sec : List Acc) : Mem := sec.foldl (runAcc job) m
 
 /-- The scheduler lets thread `i` run its next critical section. -/
 def Conc.sched (c : Conc) (i : Nat) : Conc :=
@@ -180,18 +201,22 @@ def Conc.sched (c : Conc) (i : Nat) : Conc :=
   | some t =>
     match t.todo with
     | sec :: rest =>
-      let r := runSection t.entry c.shared t.loc sec
-      { shared := r.1, thr := c.thr.set i { t with todo := rest, loc := r.2 } }
+      let r := runSection t.job ⟨c.shared, c.log, t.loc⟩ sec
+      { shared := r.shared, log := r.log, thr := c.thr.set i { t with todo := rest, loc := r.loc } }
     | [] => c
   | none => c
 
 def Conc.run (c : Conc) (schedule : List Nat) : Conc := schedule.foldl Conc.sched c
 
+/-- Threads that still have a section to run. -/
 def Conc.pending (c : Conc) : Nat := c.thr.countP fun t => !t.todo.isEmpty
 
-/-- `n` threads, each about to record a failure at time `now`, thread `j` following `progs[j]`. -/
-def Conc.start (init : List Int) (now : Int) (progs : List Prog) : Conc :=
-  { shared := init, thr := progs.map fun p => { entry := now, todo := p } }
+/-- Recording threads that have not recorded yet. -/
+def Conc.pendingRec (c : Conc) : Nat := c.thr.countP fun t => t.job.isRecord && !t.todo.isEmpty
+
+/-- Threads `(job, program)` about to start on the entry list `init`. -/
+def Conc.start (init : List Int) (ts : List (Job × Prog)) : Conc :=
+  { shared := init, thr := ts.map fun jp => { job := jp.1, todo := jp.2 } }
 
 /-! ### operations as seen by the correspondence harness -/
 
@@ -203,8 +228,9 @@ inductive Op where
   | checkOnly (now : Int) (addr : Addr) (a : Action)
   | throttleOnly (now : Int) (addr : Addr) (a : Action)
   /-- `n` connections from one address pass CheckBruteforce (at `now`), then all fail at once: their
-  `throttle` calls run concurrently.  Observed at rest. -/
-  | par (now : Int) (addr : Addr) (a : Action) (n : Nat)
+  `throttle` calls run concurrently — and concurrently with further checks of that address made at
+  `now + dt`.  Observed at rest, at `now + dt`. -/
+  | par (now : Int) (addr : Addr) (a : Action) (n : Nat) (dt : Nat)
   deriving Repr
 
 inductive Out where
@@ -221,17 +247,17 @@ inductive Out where
 def youngCount (now : Int) (es : List Int) : Nat :=
   (es.filter fun t => !cmpInt ageCmp (now - t) (maxBruteforceAge : Int)).length
 
-/-- `par`: the checks come first (only the first one can prune), then — by the atomicity of
-`addEntry` (`addEntryProgs`, theorem `C17_concurrent_failures_all_recorded`) — the `n` concurrent
-`throttle` calls amount to `n` appends in some order; all carry the same time `now`. -/
-def par (st : State) (now : Int) (k : Key) (a : Action) (n : Nat) : State × Out :=
+/-- `par`: the checks at `now` come first (only the first one can prune), then — no interleaving of
+the concurrent `throttle` calls and checks loses a record (`C17_concurrent_no_record_lost`) — the `n`
+failures, all carrying the time `now`, are appended, and what is left at rest is what a check at
+`now + dt` makes of that list. -/
+def par (st : State) (now : Int) (k : Key) (a : Action) (n dt : Nat) : State × Out :=
   let (st1, r) := check st now k a
-  if r then (st1, .rest 0 (youngCount now (st1 k a)) true [])
-  else
-    let es0 := st1 k a
-    let es := es0 ++ List.replicate n now
-    (st1.set k a es,
-     .rest n (youngCount now es) (blocked now es) ((List.range n).map fun i => getDelay (es0.length + i)))
+  let p := if r then 0 else n          -- refused: nobody gets as far as failing
+  let es0 := st1 k a
+  let st2 := st1.set k a (es0 ++ List.replicate p now)
+  let (st3, r') := check st2 (now + dt) k a
+  (st3, .rest p (youngCount (now + dt) (st3 k a)) r' ((List.range p).map fun i => getDelay (es0.length + i)))
 
 def step (st : State) : Op → State × Out
   | .attempt now addr a failed =>
@@ -249,7 +275,7 @@ def step (st : State) : Op → State × Out
   | .throttleOnly now addr a =>
     let (st1, d) := throttle st now (throttleKey addr) a
     (st1, .delayed d)
-  | .par now addr a n => par st now (throttleKey addr) a n
+  | .par now addr a n dt => par st now (throttleKey addr) a n dt
 
 def run (st : State) : List Op → State × List Out
   | [] => (st, [])
